@@ -131,6 +131,10 @@ extern "C" {
     pub fn oxidd_dddmp_diagram_name(file: *const c_void) -> StrT;
     pub fn oxidd_dddmp_support_var_order(file: *const c_void) -> SliceU32;
     pub fn oxidd_dddmp_has_root_names(file: *const c_void) -> bool;
+    pub fn oxidd_dddmp_support_vars(file: *const c_void) -> SliceU32;
+    pub fn oxidd_dddmp_support_var_to_level(file: *const c_void) -> SliceU32;
+    pub fn oxidd_dddmp_has_var_names(file: *const c_void) -> bool;
+    pub fn oxidd_dddmp_var_name(file: *const c_void, i: u32) -> StrT;
     pub fn oxidd_dddmp_root_name(file: *const c_void, i: usize) -> StrT;
 }
 
